@@ -17,7 +17,8 @@ EXTENDS SVecMem, Json, IOUtils
 TraceLog == ndJsonDeserialize(IOEnv.TRACE)
 Cfg == TraceLog[1]
 
-VARIABLES l, st
+VARIABLES l, st,
+          seen      \* {<<property, check name>>} whose antecedent held on some line so far (non-vacuity per conjunct)
 
 Absent == [p |-> FALSE]
 Empty  == [A |-> Absent, B |-> Absent, blocks |-> <<>>]
@@ -30,7 +31,9 @@ Report(checks) ==
   IN  /\ \A t \in bad : PrintT(<<"V", l, t[1], t[2]>>)
       /\ (hits # {} => PrintT(<<"H", l, hits>>))
 
-Init == l = 1 /\ st = Empty
+NonVacuous(checks) == {<<t[1], t[2]>> : t \in {u \in checks : u[3] # 2}}
+
+Init == l = 1 /\ st = Empty /\ seen = {}
 
 Step ==
   /\ l <= Len(TraceLog)
@@ -39,23 +42,24 @@ Step ==
             LET post == IF Fatal(ln) THEN Empty ELSE StateOf(ln) IN
             /\ LET l1 == OpChecks(Cfg, st, post, ln)
                    l0 == MemChecks(Cfg, st, post, ln)
-               IN  Report(l1 \cup l0 \cup StrongLeakChecks(l1, l0))
+                   all == l1 \cup l0 \cup StrongLeakChecks(l1, l0)
+               IN  Report(all) /\ seen' = seen \cup NonVacuous(all)
             /\ st' = post
        [] ln.t = "snap" ->
-            /\ Report(InvChecks(Cfg, StateOf(ln), ln.can))
+            /\ LET all == InvChecks(Cfg, StateOf(ln), ln.can) IN Report(all) /\ seen' = seen \cup NonVacuous(all)
             /\ st' = StateOf(ln)
-       [] ln.t = "reset" -> st' = Empty
+       [] ln.t = "reset" -> st' = Empty /\ seen' = seen
        [] ln.t = "fatal" ->
             \* the process died between calls (e.g. the C library found its heap corrupted): an earlier call of
             \* this history wrote outside its storage
             /\ Report({<<"C02", "process died between calls (memory corrupted by an earlier call)", 0>>,
                        <<"C12", "process died between calls (memory corrupted by an earlier call)", 0>>})
-            /\ st' = Empty
-       [] OTHER -> st' = st
+            /\ st' = Empty /\ seen' = seen
+       [] OTHER -> st' = st /\ seen' = seen
   /\ l' = l + 1
 
-Finish == l = Len(TraceLog) + 1 /\ PrintT(<<"END", Len(TraceLog)>>) /\ l' = l + 1 /\ st' = st
+Finish == l = Len(TraceLog) + 1 /\ PrintT(<<"NAMES", seen>>) /\ PrintT(<<"END", Len(TraceLog)>>) /\ l' = l + 1 /\ st' = st /\ seen' = seen
 
 Next == Step \/ Finish
-Spec == Init /\ [][Next]_<<l, st>>
+Spec == Init /\ [][Next]_<<l, st, seen>>
 =============================================================================
